@@ -2,6 +2,7 @@ package checks
 
 import (
 	"fmt"
+	"os"
 	"sort"
 	"strings"
 	"time"
@@ -310,29 +311,20 @@ func checkCut(p *drv.Plan, recs []*stepRec, ri int, rec *stepRec, cut int, cls s
 		w2.M, w2.T = newM.Clone(), newT.Clone()
 		vNew := w2.Guard("C05", "C05.old-or-new", cls, func() *drv.Violation { return auditCrashState(w2) })
 		if vNew != nil {
-			// A rollback over several versions that stopped at a version in
-			// between is neither old nor new either, but it is a different
-			// thing from a damaged state: every version that is left is intact.
-			// It gets a symptom of its own so that the two are never confused.
-			if rec.step.Op == drv.OpLVFO || rec.step.Op == drv.OpDVF {
-				for t := oldT.Latest - 1; t > newT.Latest; t-- {
-					if !oldM.Has(t) {
-						continue
-					}
-					w2.M, w2.T = oldM.Clone(), oldT.Clone()
-					w2.M.RollbackTo(t)
-					w2.T.RollbackTo(t)
-					if vMid := w2.Guard("C05", "C05.old-or-new", cls, func() *drv.Violation { return auditCrashState(w2) }); vMid == nil {
-						// repeating the rollback must still reach the crash-free result
-						if v := w2.Apply(rec.step); v != nil {
-							return "intermediate+retry-fails", &drv.Violation{Prop: "C05", Oracle: "C05.retry", Symptom: "retry-diverges", Class: cls, Detail: fmt.Sprintf("a stop at write %d of step %s left the store at version %d, and repeating the rollback failed: %s", cut-rec.lo, rec.step.String(), t, v.Error())}
-						}
-						if v := w2.Guard("C05", "C05.retry", cls, func() *drv.Violation { return auditCrashState(w2) }); v != nil {
-							return "intermediate+retry-diverges", &drv.Violation{Prop: "C05", Oracle: "C05.retry", Symptom: "retry-diverges", Class: cls, Detail: fmt.Sprintf("a stop at write %d of step %s left the store at version %d, and after repeating the rollback: %s", cut-rec.lo, rec.step.String(), t, v.Error())}
-						}
-						return "intermediate", bad("intermediate-version", fmt.Sprintf("the rollback from version %d to version %d stopped at version %d: every remaining version is intact, but the state is neither the one before nor the one after", oldT.Latest, newT.Latest, t))
-					}
+			// A rollback or a deletion over several versions that stopped at a
+			// version in between is neither old nor new either, but it is a
+			// different thing from a damaged state: every version that is left is
+			// intact. It gets a symptom of its own so that the two are never
+			// confused, and repeating the operation must still reach the
+			// crash-free result.
+			if what, mid := intermediateState(w2, "C05", "C05.old-or-new", cls, rec.step.Op, oldM, oldT, newM, newT); mid {
+				if v := w2.Apply(rec.step); v != nil {
+					return "intermediate+retry-fails", &drv.Violation{Prop: "C05", Oracle: "C05.retry", Symptom: "retry-diverges", Class: cls, Detail: fmt.Sprintf("a stop at write %d of step %s: %s, and repeating the operation failed: %s", cut-rec.lo, rec.step.String(), what, v.Error())}
 				}
+				if v := w2.Guard("C05", "C05.retry", cls, func() *drv.Violation { return auditCrashState(w2) }); v != nil {
+					return "intermediate+retry-diverges", &drv.Violation{Prop: "C05", Oracle: "C05.retry", Symptom: "retry-diverges", Class: cls, Detail: fmt.Sprintf("a stop at write %d of step %s: %s, and after repeating the operation: %s", cut-rec.lo, rec.step.String(), what, v.Error())}
+				}
+				return "intermediate", bad("intermediate-version", what+": every remaining version is intact, but the state is neither the one before nor the one after")
 			}
 			return "mixture", bad("mixture", fmt.Sprintf("state is neither the one before (%s) nor the one after (%s)", firstLine(vOld.Detail), firstLine(vNew.Detail)))
 		}
@@ -369,6 +361,53 @@ func checkCut(p *drv.Plan, recs []*stepRec, ri int, rec *stepRec, cut int, cls s
 		}
 	}
 	return state, nil
+}
+
+// intermediateState tells whether the reopened store of w is exactly the state
+// of an operation over several versions that was carried out for some of them
+// only: a rollback that stopped at a version between the target and the old
+// latest version, or a deletion of old versions that stopped below its target.
+// On success w's models are left at that state.
+func intermediateState(w *drv.World, prop, oracle, cls, op string, oldM *ref.VMap, oldT *ref.Tree, newM *ref.VMap, newT *ref.Tree) (string, bool) {
+	try := func(set func()) bool {
+		w.M, w.T = oldM.Clone(), oldT.Clone()
+		set()
+		v := w.Guard(prop, oracle, cls, func() *drv.Violation { return auditCrashState(w) })
+		if v != nil && os.Getenv("VERIF_DEBUG_INTERMEDIATE") != "" {
+			fmt.Fprintf(os.Stderr, "intermediate candidate rejected: %s\n", firstLine(v.Detail))
+		}
+		return v == nil
+	}
+	switch op {
+	case drv.OpLVFO, drv.OpDVF, "p.lvfo":
+		for t := oldT.Latest - 1; t > newT.Latest; t-- {
+			if !oldM.Has(t) {
+				continue
+			}
+			t := t
+			if try(func() { w.M.RollbackTo(t); w.T.RollbackTo(t) }) {
+				return fmt.Sprintf("the rollback from version %d to version %d stopped at version %d", oldT.Latest, newT.Latest, t), true
+			}
+		}
+	case drv.OpPrune, "p.prune":
+		nv := newM.Versions()
+		if len(nv) == 0 {
+			return "", false
+		}
+		var below []int64
+		for _, t := range oldM.Versions() {
+			if t < nv[0] {
+				below = append(below, t)
+			}
+		}
+		for i := 0; i+1 < len(below); i++ {
+			t := below[i]
+			if try(func() { w.M.PruneTo(t); w.T.PruneTo(t) }) {
+				return fmt.Sprintf("the deletion of the versions up to %d stopped after version %d", below[len(below)-1], t), true
+			}
+		}
+	}
+	return "", false
 }
 
 func universeOf(recs []*stepRec) map[string]bool {
